@@ -139,3 +139,12 @@ func verifPBChannelUpdateRejMsg(x *client.ChannelUpdateRejMsg) *client.ChannelUp
 func verifPBSubChannelProposalAccMsg(x *client.SubChannelProposalAccMsg) *client.SubChannelProposalAccMsg {
 	return ToSubChannelProposalAccMsg(FromSubChannelProposalAccMsg(x))
 }
+
+func verifPBSubChannelProposalMsg(x *client.SubChannelProposalMsg) (y *client.SubChannelProposalMsg, fromErr, toErr error) {
+	p, err := FromSubChannelProposalMsg(x)
+	if err != nil {
+		return nil, err, nil
+	}
+	y, toErr = ToSubChannelProposalMsg(p)
+	return y, nil, toErr
+}
